@@ -266,7 +266,33 @@ def check_finding(case):
     return check_main(case)
 
 
+# ---- units: the C08 machinery (two spellings of the same durations, compared with each other and with the reference) ----
+
+def _units_cases(tier, pastonly):
+    from . import C08
+    from hypothesis import strategies as st2
+
+    @st2.composite
+    def mk(draw):
+        c = draw(C08.cases(tier, 'pastified'))
+        if pastonly:
+            f, vs = draw(F.formulas(C08.PROF_PAST))
+            f = draw(C08.ensure_timed(f, 'online'))
+            c['formula'], c['vars'] = f, vs
+            n = draw(F.trace_lengths(8))
+            c['trace'] = draw(F.traces(vs, n=n))
+        return c
+    return mk()
+
+
+def check_units(case):
+    from . import C08
+    return C08.check(case)
+
+
 LANES = [
+    Lane('units', lambda tier: _units_cases(tier, False), check_units, 1500, 20000, std_candidates),
+    Lane('units_pastonly', lambda tier: _units_cases(tier, True), check_units, 800, 10000, std_candidates),
     Lane('main', lambda tier: main_cases(tier), check_main, 4000, 60000, std_candidates),
     Lane('warmup', lambda tier: main_cases(tier, BFUT_ALL), check_finding, 600, 6000, std_candidates),
     Lane('pastonly', strat_pastonly, check_pastonly, 1500, 20000, std_candidates),
